@@ -66,6 +66,9 @@ pub struct LocalCfg {
     pub trxs: Vec<(MediaKind, TransceiverDirection)>,
     /// kinds for which a track is added with `add_track` (a transceiver WITH a sender)
     pub tracks: Vec<MediaKind>,
+    /// `media_capabilities.image` / `.application` (round 2)
+    pub image: Vec<rustrtc::config::T38Capability>,
+    pub sctp_port: Option<u16>,
 }
 
 fn acap(pt: u8, name: &str, clock: u32, ch: u8, fmtp: Option<&str>) -> AudioCapability {
@@ -96,7 +99,17 @@ fn gen_cfg(rng: &mut Rng) -> LocalCfg {
     let n = match rng.below(10) { 0..=3 => 0, 4..=6 => 1, 7..=8 => 2, _ => 4 };
     let trxs = (0..n).map(|_| (*rng.pick(&kinds), *rng.pick(&dirs))).collect();
     let tracks = match rng.below(8) { 0 => vec![MediaKind::Audio], 1 => vec![MediaKind::Video], 2 => vec![MediaKind::Audio, MediaKind::Video], _ => vec![] };
-    LocalCfg { mode, legacy: rng.chance(1, 6), mux_require: !rng.chance(1, 6), audio, video, caps_set, trxs, tracks }
+    let legacy = rng.chance(1, 6);
+    let mux_require = !rng.chance(1, 6);
+    let image = match rng.below(6) {
+        0 => vec![rustrtc::config::T38Capability { payload_type: 99, version: 2, max_bitrate: 9600, rate_management: rustrtc::config::T38FaxRateManagement::LocalTCF,
+                   max_buffer: 512, max_datagram: 176, udp_ec: rustrtc::config::T38UdpEC::T38UDPFEC, fmtp: None }],
+        1 => vec![rustrtc::config::T38Capability::default(), rustrtc::config::T38Capability { payload_type: 100, version: 3, max_bitrate: 4800,
+                   rate_management: rustrtc::config::T38FaxRateManagement::TransferredTCF, max_buffer: 200, max_datagram: 72, udp_ec: rustrtc::config::T38UdpEC::T38UDPRedundancy, fmtp: None }],
+        _ => vec![],
+    };
+    let sctp_port = if rng.chance(1, 5) { Some(*rng.pick(&[5001u16, 9, 65535])) } else { None };
+    LocalCfg { mode, legacy, mux_require, audio, video, caps_set, trxs, tracks, image, sctp_port }
 }
 
 fn rtc_config(c: &LocalCfg) -> RtcConfiguration {
@@ -108,7 +121,8 @@ fn rtc_config(c: &LocalCfg) -> RtcConfiguration {
     r.sdp_compatibility = if c.legacy { SdpCompatibilityMode::LegacySip } else { SdpCompatibilityMode::Standard };
     r.rtcp_mux_policy = if c.mux_require { RtcpMuxPolicy::Require } else { RtcpMuxPolicy::Negotiate };
     if c.caps_set {
-        r.media_capabilities = Some(MediaCapabilities { audio: c.audio.clone(), video: c.video.clone(), application: None, image: vec![] });
+        r.media_capabilities = Some(MediaCapabilities { audio: c.audio.clone(), video: c.video.clone(),
+            application: c.sctp_port.map(|p| rustrtc::config::ApplicationCapability { sctp_port: p }), image: c.image.clone() });
     }
     r
 }
@@ -119,8 +133,11 @@ fn cfg_s(c: &LocalCfg) -> String {
         enc_opt(&a.fmtp), list("^", a.rtcp_fbs.iter().map(|f| enc(f)).collect()))).collect();
     let vc: Vec<String> = video.iter().map(|v| format!("{},{},{},{},{},{}", v.payload_type, enc(&v.codec_name), v.clock_rate, enc_opt(&v.fmtp),
         list("^", v.rtcp_fbs.iter().map(|f| enc(f)).collect()), v.rtx_payload_type.map(|r| r.to_string()).unwrap_or("~".into()))).collect();
-    format!("{},{},{},5000|{}|{}", match c.mode { TransportMode::WebRtc => "w", TransportMode::Srtp => "s", TransportMode::Rtp => "r" },
-        c.legacy as u8, c.mux_require as u8, list("+", ac), list("+", vc))
+    let ic: Vec<String> = if c.caps_set { c.image.iter().map(|t| format!("{},{},{},{},{},{},{}", t.payload_type, t.version, t.max_bitrate, enc(&t.rate_management.to_string()),
+        t.max_buffer, t.max_datagram, enc(&t.udp_ec.to_string()))).collect() } else { vec![] };
+    let port = if c.caps_set { c.sctp_port.unwrap_or(rustrtc::config::ApplicationCapability::default().sctp_port) } else { rustrtc::config::ApplicationCapability::default().sctp_port };
+    format!("{},{},{},{}|{}|{}|{}", match c.mode { TransportMode::WebRtc => "w", TransportMode::Srtp => "s", TransportMode::Rtp => "r" },
+        c.legacy as u8, c.mux_require as u8, port, list("+", ac), list("+", vc), list("+", ic))
 }
 
 // ------------------------------------------------------------------------------------------------
@@ -337,7 +354,7 @@ pub fn valid_answer(offer: &SessionDescription, ans: &SessionDescription, cx: &C
                     let lv: Vec<String> = local_video(cx.cfg).iter().filter(|c| !c.codec_name.eq_ignore_ascii_case("rtx")).map(|c| c.payload_type.to_string()).collect();
                     if prim.len() == lv.len() && prim.iter().zip(lv.iter()).all(|(x, y)| *x == y) { "local-video-list-not-intersected" } else { "other" }
                 }
-                MediaKind::Image => if o.formats == ["t38"] && a.formats.len() == 1 && a.formats[0].parse::<u8>().is_ok() { "t38-answered-as-number" } else { "other" },
+                MediaKind::Image => if o.formats == ["t38"] && !a.formats.is_empty() && a.formats.iter().all(|f| f.parse::<u8>().is_ok()) { "t38-answered-as-number" } else { "other" },
                 MediaKind::Application => "other",
             };
             if let Some(f) = unoffered {
@@ -733,7 +750,8 @@ pub fn run(args: &Args) {
     for i in 0..nm {
         let lines: Vec<&str> = base.split("\r\n").filter(|l| !l.is_empty()).collect();
         let mut ls: Vec<String> = lines.iter().map(|s| s.to_string()).collect();
-        match rng.below(9) {
+        let nmut = if rng.chance(1, 3) { 2 } else { 1 }; // two faults in one text: which error is reported first
+        for _ in 0..nmut { match rng.below(9) {
             0 => { let k = rng.below(ls.len() as u64) as usize; ls.remove(k); }
             1 => { let k = rng.below(ls.len() as u64) as usize; ls[k] = ls[k].replace('=', " "); }
             2 => { let k = rng.below(ls.len() as u64) as usize; ls.insert(k, (*rng.pick(&["b=AS:128", "i=title", "a=foo", "a=foo:", "a=:x", "k=clear:abc", "b:x=y", "a:b=c", "i:=", "a=mid", "a=sendonly", "x", "=", "a=", "z=0 0"])).to_string()); }
@@ -743,7 +761,7 @@ pub fn run(args: &Args) {
             6 => { let k = rng.below(ls.len() as u64) as usize; ls[k] = format!("  {}  ", ls[k]); }
             7 => { for l in ls.iter_mut() { if l.starts_with("t=") { *l = (*rng.pick(&["t=0", "t=1 2 3", "t=a b", "t=18446744073709551615 0"])).to_string(); } } }
             _ => { let k = rng.below(ls.len() as u64) as usize; ls.insert(k, String::new()); }
-        }
+        } }
         let sep = if rng.chance(1, 4) { "\n" } else { "\r\n" };
         let text = ls.join(sep) + if rng.chance(1, 2) { sep } else { "" };
         round_trip_text(&mut run, &format!("mal:{}:{}", args.seed, i), "malformed", &text);
